@@ -167,7 +167,7 @@ def h_long(carrier, cache, pre):
     import datetime
     from dateutil import rrule as RR
     types = dict(n=int, i=int)
-    start = datetime.datetime(1997, 9, 2, 9, 0)
+    start = datetime.datetime(1997, 12, 20, 9, 0)      # 25 daily occurrences cross the year boundary
 
     def fn(ctx, n, i):
         ctx.assume(S.within(n, 0, 25))
@@ -227,6 +227,24 @@ def h_long(carrier, cache, pre):
                 ctx.check(L[-1] in r and (L[-1] + datetime.timedelta(hours=1)) not in r, "membership differs from the listed sequence", key=key + ":contains")
             ctx.check(list(r) == L, "list(rule) after the queries differs from the uncached sequence", key=key + ":list")
             ctx.check(list(build()[max(i, 0)::3]) == L[max(i, 0)::3], "rule[i::3] != list(rule)[i::3]", key=key + ":slice")
+            if held is not None:
+                # the iterator that was paused before the queries goes on from where it stopped, whatever ran in between
+                try:
+                    rest = list(held)
+                except Exception as e:
+                    ctx.fail("an iterator paused before other queries raised %s when continued (n=%d)" % (type(e).__name__, n), key=key + ":held-raises")
+                ctx.check(rest == L[3:], "an iterator paused before other queries continued with %r, expected %r" % (rest[:3], L[3:6]), key=key + ":held")
+            # a lazy xafter() that is partly consumed, another query, then the rest
+            r2 = build()
+            lazy = r2.xafter(start - datetime.timedelta(days=1), count=n + 2, inc=True)
+            head = list(itertools.islice(lazy, 2))
+            r2.count()
+            (L[-1] if L else start) in r2
+            try:
+                tail = list(lazy)
+            except Exception as e:
+                ctx.fail("a partly consumed xafter() raised %s after other queries ran (n=%d)" % (type(e).__name__, n), key=key + ":lazy-raises")
+            ctx.check(head + tail == L, "a partly consumed xafter() continued with %r after other queries, expected %r" % (tail[:3], L[2:5]), key=key + ":lazy")
         return None
     return fn, types
 
